@@ -25,3 +25,11 @@ def fresh(kind):
     os.makedirs(path)
     atexit.register(lambda: shutil.rmtree(path, ignore_errors=True))
     return path
+
+
+def count_cell(key):
+    """Record that the concrete cell `key` was executed (see xh/runner.py)."""
+    f = os.environ.get('XH_COUNT_FILE')
+    if f:
+        with open(f, 'a') as fh:
+            fh.write(str(key).replace('\n', ' ') + '\n')
